@@ -8,7 +8,7 @@ from vlib import gen, ref, obs
 from vlib import expr as E
 from vlib.build import build
 from vlib.core import Fail, HarnessInconclusive
-from vlib.nlp import NLP, Rows, Dictionary, diff_rows, subtract_rows, close, time_like_vars, random_points, summarize_diff
+from vlib.nlp import NLP, Rows, Dictionary, diff_rows, subtract_rows, close, time_like_vars, random_points, summarize_diff, DMa
 from props import c04, c05, c11
 
 ID = "C14"
@@ -72,8 +72,15 @@ def dae_shooting_strategy(draw):
             "phase": draw(st.sampled_from(["before", "after"])), "T": draw(st.sampled_from([1.0, 0.5])), "rng": 0}
 
 
+@st.composite
+def order_control_strategy(draw):
+    """A scaled control of order k >= 1 (rockit turns it into a state with a chain of derivative controls)."""
+    return {"kind": "order_control", "cls": draw(st.sampled_from(["MS", "SS", "DC"])), "N": draw(st.integers(1, 3)), "M": draw(st.integers(1, 2)), "order": draw(st.integers(1, 2)),
+            "rows": draw(st.sampled_from([1, 1, 2])), "scale": draw(st.sampled_from([0.1, 5.0, 40.0])), "xscale": draw(st.sampled_from([1.0, 4.0])), "guess": draw(gen.small()), "rng": 0}
+
+
 def strategy(tier):
-    return st.one_of(*([strategy_()] * 9 + [dae_shooting_strategy()]))
+    return st.one_of(*([strategy_()] * 8 + [dae_shooting_strategy(), order_control_strategy()]))
 
 
 def unscaled(sp):
@@ -93,7 +100,7 @@ def scale_vec(d):
 
 
 def nontrivial(case):
-    if case.get("kind") == "dae_shooting":
+    if case.get("kind") in ("dae_shooting", "order_control"):
         return True
     sp = case["spec"]
     elementwise = any(isinstance(d.get("scale"), list) for d in sp["states"] + sp["controls"] + sp["vars"] + sp.get("algebraics", []))
@@ -102,6 +109,8 @@ def nontrivial(case):
 
 
 def classify(case):
+    if case.get("kind") == "order_control":
+        return ["scaled control of order >= 1", "method:" + case["cls"], "order:%d" % case["order"]]
     if case.get("kind") == "dae_shooting":
         return ["scaled algebraic guess under shooting", "method:" + case["cls"], "phase:" + case["phase"]]
     sp = case["spec"]
@@ -124,7 +133,7 @@ def classify(case):
 
 
 def abbreviate(case):
-    if case.get("kind") == "dae_shooting":
+    if case.get("kind") in ("dae_shooting", "order_control"):
         return case
     sp = case["spec"]
     return {"method": sp["method"], "states": sp["states"], "controls": sp["controls"], "vars": sp["vars"], "der_scale": sp["der_scale"],
@@ -179,7 +188,46 @@ def check_dae_shooting(case, ctx):
     return []
 
 
+def check_order_control(case, ctx):
+    """Every decision variable behind a scaled symbol is the physical value divided by the scale; guesses are physical."""
+    from rockit import Ocp, MultipleShooting, SingleShooting, DirectCollocation
+    from vlib.build import IPOPT_QUIET
+    ocp = Ocp(T=1.0)
+    x = ocp.state(scale=case["xscale"])
+    u = ocp.control(case["rows"], order=case["order"], scale=case["scale"])
+    ocp.set_der(x, u[0] - x)
+    ocp.add_objective(ocp.integral(ca.sumsqr(u) + x ** 2))
+    ocp.subject_to(ocp.at_t0(x) == 1)
+    ocp.set_initial(u, case["guess"])
+    kw = {"N": case["N"], "M": case["M"]}
+    ocp.method({"MS": MultipleShooting, "SS": SingleShooting, "DC": DirectCollocation}[case["cls"]](**kw))
+    ocp.solver("ipopt", dict(IPOPT_QUIET))
+    feats = {"kind": "order_control", "method": case["cls"], "order": case["order"]}
+    nlp = NLP(ocp)
+    fails = []
+    for name, sym, sc in (("u", u, case["scale"]), ("x", x, case["xscale"])):
+        val = ca.vec(ca.MX(ocp.sample(sym, grid="control")[1]))
+        JF = ca.Function("J", [nlp.x, nlp.p], [ca.jacobian(val, nlp.x)], {"allow_free": True})
+        if JF.has_free():
+            continue
+        J = np.array(JF(np.full(nlp.nx, 0.3), nlp.p0))
+        if not np.allclose(J, np.array(JF(np.full(nlp.nx, -0.7), nlp.p0))):
+            continue       # propagated values (SingleShooting beyond the first node): not decision variables themselves
+        raw = [i for i in range(J.shape[0]) if np.count_nonzero(J[i]) == 1]        # entries that are a decision variable themselves
+        got = sorted({round(float(J[i][np.nonzero(J[i])[0][0]]), 12) for i in raw})
+        if raw and got != [float(sc)]:
+            fails.append(Fail("variable-scale", dict(feats, symbol=name), {"d_physical_d_solver": got, "declared_scale": sc}))
+    start = DMa(ocp.initial_value(ocp.sample(u, grid="control")[1]))
+    first = start.reshape(case["rows"], -1)[:, 0]
+    if not close(first, np.full(case["rows"], float(case["guess"])), 1e-12, 1e-12):
+        fails.append(Fail("guess-physical-units", dict(feats, symbol="u"), {"start": first, "guess": case["guess"]}))
+    ctx.count("order_control_cases")
+    return fails
+
+
 def check(case, ctx):
+    if case.get("kind") == "order_control":
+        return check_order_control(case, ctx)
     if case.get("kind") == "dae_shooting":
         return check_dae_shooting(case, ctx)
     spA = copy.deepcopy(case["spec"])
